@@ -358,9 +358,9 @@ pub fn main(args: Args) -> i32 {
     if args.tier == Tier::Thorough {
         let opts3 = gen::Opts { depth: 3, ..opts };
         let size3 = gen::Gen::new(opts3).size();
-        let stride3 = 211u64;
+        let stride3 = 23u64;
         let n3 = (size3 + stride3 - 1) / stride3;
-        acc.count("programs_depth3_stride211", n3);
+        acc.count("programs_depth3_stride23", n3);
         par_chunks(n3, 128, &acc, |r, l| {
             let g = gen::Gen::new(opts3);
             for k in r {
@@ -376,7 +376,7 @@ pub fn main(args: Args) -> i32 {
             level: "exploration",
             tier: args.tier,
             seed: args.seed,
-            rule: format!("{} hand-enumerated assignment-bearing and expression forms (self-referential set, with, dotted set, unpacking, slices/subscripts, macro defaults/bodies/closures, call blocks with arguments, loops reading their own target, set-blocks, autoescape expressions, filter blocks, special names; 14 constructs reading a name in their header x 8 ways of binding the same name at the top of their body, with and without a read after the construct; every macro and call-block signature of up to 3 parameters whose defaults are absent, a literal, an outer name, an earlier or a later parameter, called with every number of arguments) plus every {} program of the depth-2 generator space{}; each rendered with a recording context object under all-keys, no-keys and every subset of up to 4 mentioned keys; every recorded key must be in undeclared_variables(false) (or a global) and be the head of a path of undeclared_variables(true). distinct non-trivial = distinct sources whose render looked up at least one key", specials.len(), if stride == 1 { "".to_string() } else { format!("{}th", stride) }, if args.tier == Tier::Thorough { " and every 211th depth-3 program" } else { "" }),
+            rule: format!("{} hand-enumerated assignment-bearing and expression forms (self-referential set, with, dotted set, unpacking, slices/subscripts, macro defaults/bodies/closures, call blocks with arguments, loops reading their own target, set-blocks, autoescape expressions, filter blocks, special names; 14 constructs reading a name in their header x 8 ways of binding the same name at the top of their body, with and without a read after the construct; every macro and call-block signature of up to 3 parameters whose defaults are absent, a literal, an outer name, an earlier or a later parameter, called with every number of arguments) plus every {} program of the depth-2 generator space{}; each rendered with a recording context object under all-keys, no-keys and every subset of up to 4 mentioned keys; every recorded key must be in undeclared_variables(false) (or a global) and be the head of a path of undeclared_variables(true). distinct non-trivial = distinct sources whose render looked up at least one key", specials.len(), if stride == 1 { "".to_string() } else { format!("{}th", stride) }, if args.tier == Tier::Thorough { " and every 23rd depth-3 program" } else { "" }),
             exhaustive: true,
             bound: json!({"context_key_pool": pool_values().keys().collect::<Vec<_>>()}),
             assumptions: vec!["debug info is switched off (a failing render otherwise re-reads every mentioned name for its error report)".into(), "the reserved names loop/self/super/caller/varargs/kwargs are not judged".into(), "single-file templates only (include/import/extends are documented as out of scope of the analysis)".into()],
